@@ -423,8 +423,8 @@ def apply_fault(frame, f, dims, st):
             return False
         row = list(frame.rows[f["row"] % nrows])
         k = dimcols[f.get("col", 0) % len(dimcols)]
-        if row[k] is None or isinstance(row[k], (RespInt, RespStr)) or isinstance(row[k], bool):
-            return False
+        if row[k] is None or isinstance(row[k], (RespInt, RespStr)) or isinstance(row[k], bool) or row[k] not in dl[frame.cols[k]["dim"]].items:
+            return False  # only a label the dimension knows can be spelled the other way (an earlier fault may have put "zzzq" there)
         if dl[frame.cols[k]["dim"]].dtype is int:
             if not isinstance(row[k], int):
                 return False
